@@ -18,14 +18,16 @@ package redisemu
 //@ safetyprop none
 //@ requires cs != nil
 //@ ghostentry gPosted = 0
+//@ ghostentry gUnblockCalls = gUnblockCalls + 1
 //@ ghostafter "cs.unblockCh <- unblockReason" : gPosted = gPosted + 1
-//@ modifies cs->blocked cs->unblockPending ghost.gPosted
+//@ modifies cs->blocked cs->unblockPending ghost.gPosted ghost.gUnblockCalls
 //@ loop 1 invariant [C12] loop: gPosted == 0 && !wasBlocked && cs.blocked == old(cs.blocked) && cs.unblockPending == old(cs.unblockPending)
 //@ ensures [C12] only.blocked: wasBlocked == (old(cs.blocked) == CS_CAPTURED)
 //@ ensures [C12] posts.only.blocked: gPosted >= 1 ==> wasBlocked
 //@ ensures [C12] one.post: gPosted <= 1 && (gPosted == 1) == (wasBlocked && old(cs.unblockPending) == 0)
 //@ ensures [C12] pending: wasBlocked ==> cs.unblockPending != 0
 //@ ensures [C12] word.restored: cs.blocked == old(cs.blocked)
+//@ ensures counted: gUnblockCalls == old(gUnblockCalls) + 1
 
 //@ func fnClientUnblock
 //@ prop C12
